@@ -44,6 +44,7 @@ func init() {
 			kvLookupCoversAllTables(r)
 			c09ExplicitExpiryWins(r)
 			c09SanitizeKeepsVersions(r)
+			c06CollectedVersionsComplete(r)
 			c09RelativeExpiryFromNow(r)
 			c02ReplicateBeforeAck(r)
 		},
